@@ -17,17 +17,19 @@
 size_t nondet_size(void); unsigned char nondet_uchar(void); int nondet_int(void); _Bool nondet_bool(void);
 
 static struct cat_object o; static struct cat_descriptor d; static struct cat_variable v;
-static uint8_t buf[RT_CAP]; static uint8_t ubuf[4];
+static uint8_t buf[RT_CAP]; static uint8_t ubuf[RT_CAP];
+static struct cat_variable vdecoy; static uint8_t decoy[RT_DS] __attribute__((aligned(4)));
+static cat_fsm_type fsm; /* which machine formats: its own cursor, half and current variable; the other machine's variable is a decoy */
 static uint8_t data[RT_DS] __attribute__((aligned(4))); static uint8_t saved[RT_DS];
 
 static int do_format(void)
 {
         switch (RT_TYPE) {
-        case CAT_VAR_INT_DEC: return format_int_decimal(&o, CAT_FSM_TYPE_ATCMD);
-        case CAT_VAR_UINT_DEC: return format_uint_decimal(&o, CAT_FSM_TYPE_ATCMD);
-        case CAT_VAR_NUM_HEX: return format_num_hexadecimal(&o, CAT_FSM_TYPE_ATCMD);
-        case CAT_VAR_BUF_HEX: return format_buffer_hexadecimal(&o, CAT_FSM_TYPE_ATCMD);
-        default: return format_buffer_string(&o, CAT_FSM_TYPE_ATCMD);
+        case CAT_VAR_INT_DEC: return format_int_decimal(&o, fsm);
+        case CAT_VAR_UINT_DEC: return format_uint_decimal(&o, fsm);
+        case CAT_VAR_NUM_HEX: return format_num_hexadecimal(&o, fsm);
+        case CAT_VAR_BUF_HEX: return format_buffer_hexadecimal(&o, fsm);
+        default: return format_buffer_string(&o, fsm);
         }
 }
 
@@ -47,8 +49,8 @@ void harness(void)
 {
         size_t i, ds = nondet_size();
         _Bool numeric = (RT_TYPE == CAT_VAR_INT_DEC || RT_TYPE == CAT_VAR_UINT_DEC || RT_TYPE == CAT_VAR_NUM_HEX);
-        d.buf = buf; d.buf_size = RT_CAP; d.unsolicited_buf = ubuf; d.unsolicited_buf_size = 4;
-        o.desc = &d; o.var = &v;
+        d.buf = buf; d.buf_size = RT_CAP; d.unsolicited_buf = ubuf; d.unsolicited_buf_size = RT_CAP;
+        o.desc = &d;
         if (numeric) __CPROVER_assume(ds == 1 || ds == 2 || ds == 4); else __CPROVER_assume(ds >= 1 && ds <= RT_DS);
         v.type = RT_TYPE; v.data = data; v.data_size = ds; v.name = NULL; v.write = NULL; v.read = NULL;
         for (i = 0; i < RT_DS; i++) data[i] = nondet_uchar();
@@ -60,11 +62,18 @@ void harness(void)
                 data[z] = 0;
                 for (i = 0; i < RT_DS; i++) __CPROVER_assume(i >= z || (data[i] != 0 && data[i] != '\r'));
         }
+        /* decoy: same type, readable, other contents: belongs to the other machine */
+        vdecoy = v; vdecoy.data = decoy; vdecoy.access = CAT_VAR_ACCESS_READ_WRITE;
+        for (i = 0; i < RT_DS; i++) decoy[i] = nondet_uchar();
+        if (RT_TYPE == CAT_VAR_BUF_STRING) decoy[ds - 1] = 0;
 #ifdef RT_WRITE_ONLY
+        fsm = nondet_bool() ? CAT_FSM_TYPE_ATCMD : CAT_FSM_TYPE_UNSOLICITED;
+        if (fsm == CAT_FSM_TYPE_ATCMD) { o.var = &v; o.unsolicited_fsm.var = &vdecoy; } else { o.var = &vdecoy; o.unsolicited_fsm.var = &v; }
+        for (i = 0; i < RT_CAP; i++) ubuf[i] = nondet_uchar();
         v.access = CAT_VAR_ACCESS_WRITE_ONLY;
-        o.position = 0;
+        o.position = 0; o.unsolicited_fsm.position = 0;
         if (do_format() == 0) {
-                const char *t = (const char *)buf;
+                const char *t = (fsm == CAT_FSM_TYPE_ATCMD) ? (const char *)buf : (const char *)ubuf;
                 if (RT_TYPE == CAT_VAR_INT_DEC || RT_TYPE == CAT_VAR_UINT_DEC)
                         __CPROVER_assert(t[0] == '0' && t[1] == 0, "[C08:wo-decimal-zero] a write-only decimal variable is reported as 0");
                 else if (RT_TYPE == CAT_VAR_NUM_HEX) {
@@ -79,6 +88,7 @@ void harness(void)
                         __CPROVER_assert(t[0] == '"' && t[1] == '"' && t[2] == 0, "[C08:wo-string-empty] a write-only string is reported as empty");
         }
 #else
+        fsm = CAT_FSM_TYPE_ATCMD; o.var = &v; o.unsolicited_fsm.var = &vdecoy;
         v.access = nondet_bool() ? CAT_VAR_ACCESS_READ_WRITE : CAT_VAR_ACCESS_READ_ONLY;
         o.position = 0;
         int fr = do_format();
